@@ -80,7 +80,7 @@ def _chain(ctx, R, key, fn, operand, allow, site, origin=None, must_call=None, c
 def _chain_verdict(sl, key, allow, origin, must_call, consts_ok, what):
     bad = callee_allow(sl, allow)
     ops = sorted(set(a[1] for a in sl.atoms if a[0] in ("binop", "unop")))
-    cs = [] if consts_ok else _consts(sl)
+    cs = [] if consts_ok is True else _consts_but_ints(sl) if consts_ok == "ints" else _consts(sl)
     ok = not bad and not ops and not cs
     detail = "%s: off-list callees %s; arithmetic/logic %s; constants %d" % (what or key, sorted(set(b[0] for b in bad)), ops, len(cs))
     if must_call:
@@ -323,6 +323,24 @@ def _mut_borrowers(fn, root):
     return out
 
 
+# an empty buffer: new(), or with_capacity(n) -- a reservation holds no bytes (that n is not the body limit is C11.R10's business)
+EMPTY_BUF = r"bytes::BytesMut::(new|with_capacity)$"
+
+
+def _consts_but_ints(sl):
+    """Constants on a slice other than integer literals (the capacity of a pre-sized empty buffer)."""
+    out = []
+    for a in _consts(sl):
+        try:
+            v = json.loads(a[1] if a[0] == "lit" else a[2])
+        except Exception:
+            v = None
+        if isinstance(v, dict) and "int" in v and "str" not in v:
+            continue
+        out.append(a)
+    return out
+
+
 def _accumulation(ctx, R):
     """into_bytes_mut: the returned buffer starts empty, receives every element of this body's stream whole, in
     arrival order, through ONE append site, and nothing else writes to it.  Two idioms are the same program and are
@@ -365,17 +383,17 @@ def _accumulation(ctx, R):
         if root is None:
             return
         rs = ib.slice({"l": root, "p": []})
-        ctx.check(R, "accumulate:starts-empty", rs.has_call(r"bytes::BytesMut::new$") and not callee_allow(rs, [r"bytes::BytesMut::new$"]) and not rs.params() and not _consts(rs),
+        ctx.check(R, "accumulate:starts-empty", rs.has_call(EMPTY_BUF) and not callee_allow(rs, [EMPTY_BUF]) and not rs.params() and not _consts_but_ints(rs),
                   "initial accumulator: %s" % rs.callee_names(), (ib, pb))
         writers = _mut_borrowers(ib, root)
         oks = [(b, s) for b, _, s in ib.aggregates(r"^std::result::Result$", "Ok") if b in ib.reachable(0)]
         good = bool(oks)
         for b, s in oks:
             sl = ib.slice(s["rv"]["ops"][0])
-            good = good and sl.touches_local(root) and not callee_allow(sl, [r"bytes::BytesMut::new$"]) and not sl.params()
+            good = good and sl.touches_local(root) and not callee_allow(sl, [EMPTY_BUF]) and not sl.params()
         ctx.check(R, "accumulate:returns-the-accumulator", good and [bb for bb, _ in writers] == [pb],
                   "%d Ok(..) sites, each carrying the accumulator itself: %s; calls that borrow the accumulator mutably: %s" % (len(oks), good, sorted(set(t["callee"] for _, t in writers))), ib)
-        _chain(ctx, R, "accumulate:result-is-the-fold", ib, {"l": 0, "p": []}, stream_allow + [PULL, r"bytes::BytesMut::new$"], ib, must_call=r"StreamingBody::into_stream$")
+        _chain(ctx, R, "accumulate:result-is-the-fold", ib, {"l": 0, "p": []}, stream_allow + [PULL, EMPTY_BUF], ib, must_call=r"StreamingBody::into_stream$", consts_ok="ints")
         return
     # ---- fold form: h is the closure handed to try_fold
     folds = [(bb, t) for bb, t in ib.live_calls(r"TryStreamExt::try_fold$") if any(g is h for g, _ in closure_args_of_call(ib, t))]
@@ -391,10 +409,10 @@ def _accumulation(ctx, R):
         _chain(ctx, R, "accumulate:folds-this-body's-stream", ib, t["args"][0], stream_allow, (ib, bb), must_call=r"StreamingBody::into_stream$",
                origin=_from_upvar_param(ds, ib, [1]))
         s1 = ib.slice(t["args"][1])
-        ctx.check(R, "accumulate:starts-empty", s1.has_call(r"bytes::BytesMut::new$") and not callee_allow(s1, [r"bytes::BytesMut::new$"]) and not s1.params() and not _consts(s1),
+        ctx.check(R, "accumulate:starts-empty", s1.has_call(EMPTY_BUF) and not callee_allow(s1, [EMPTY_BUF]) and not s1.params() and not _consts_but_ints(s1),
                   "initial accumulator: %s" % s1.callee_names(), (ib, bb))
-    _chain(ctx, R, "accumulate:result-is-the-fold", ib, {"l": 0, "p": []}, stream_allow + [r"TryStreamExt::try_fold$", r"bytes::BytesMut::new$"], ib,
-           must_call=r"TryStreamExt::try_fold$")
+    _chain(ctx, R, "accumulate:result-is-the-fold", ib, {"l": 0, "p": []}, stream_allow + [r"TryStreamExt::try_fold$", EMPTY_BUF], ib,
+           must_call=r"TryStreamExt::try_fold$", consts_ok="ints")
 
 
 # ------------------------------------------------------------------------------------------------ R2
@@ -480,7 +498,10 @@ def r2_primitive_table(ctx):
     # Added after adversary change C09-J (deserialize_option answered `visit_none` for an empty value, so `?owner=` reached the handler as
     # None instead of Some("")): a value that is present is present -- an absent field never gets here -- so the wrapper kinds hand the
     # deserializer itself to the matching visit_<wrapper>, on every path, and call no other visitor method
-    for name, vname in (("deserialize_option", "visit_some"), ("deserialize_newtype_struct", "visit_newtype_struct")):
+    # (deserialize_enum joined after adversary change C15-K: the raw value was first checked against the `variants` list serde passes
+    # in -- which is advisory: a `#[serde(other)]` catch-all or a lenient hand-written impl accepts values that are not on it -- so a
+    # first-page request with such a scan parameter was refused and the scan could not start)
+    for name, vname in (("deserialize_option", "visit_some"), ("deserialize_newtype_struct", "visit_newtype_struct"), ("deserialize_enum", "visit_enum")):
         top = meths.get(name)
         if top is None:
             ctx.lost(R, "MapDeserializer::%s" % name)
